@@ -82,12 +82,88 @@ package immutable
 //@   call (*FirstLastReader).ReadMaxFromPreAgg
 //@     requires !r.first && ctx.tr.Max >= sr[1]
 
+// first()/last() without reading the time column: row 0 (resp. the last row) of a segment without nulls is the
+// answer only if the segment starts (resp. ends) inside the query range, and the time reported with the value
+// is that SEGMENT's first (resp. last) time - not the chunk's.
+//@ func (*FirstLastReader).Read
+//@   requires r != nil && ctx != nil && r.cm != nil
+//@   ghost rt bool = false
+//@   ghost pa bool = false
+//@   call (*FirstLastReader).next
+//@     set rt = false
+//@     set pa = false
+//@   call (*FirstLastReader).readFirstOrLastFromPreAgg
+//@     set pa = ret2
+//@   call (*FirstLastReader).readTimeColVal
+//@     set rt = true
+//@   call getColumnValue
+//@     frame nothing
+//@   call (*FirstLastReader).after
+//@     requires [first_shortcut] !pa && !rt && r.first ==> arg2 == 0 && minMaxSeg[0] >= ctx.tr.Min && arg1 == minMaxSeg[0]
+//@     requires [last_shortcut] !pa && !rt && !r.first ==> minMaxSeg[1] <= ctx.tr.Max && arg1 == minMaxSeg[1]
+
 // count(field) over a partially covered chunk counts the non-null values of the selected row window.
 //@ func readSumCountFromData
 //@   call .Overlaps
 //@     requires arg0 == trSegs[i][0] && arg1 == trSegs[i][1]
 //@   call (*ColVal).ValidCount
 //@     requires arg0 == rowIdxStart && arg1 == rowIdxStop
+
+// Statistics are rebuilt when files are rewritten: the shared per-type accumulator used to merge the source
+// chunks' statistics starts empty for every column (it is shared across columns and series), so a column's
+// stored statistics can never contain another column's values.
+//@ func (*StreamIterators).mergeIntegerPreAgg
+//@   ghost rs bool = false
+//@   call .reset on aggBuilder
+//@     set rs = true
+//@   call .unmarshal on aggBuilder
+//@     requires [accumulator_reset] rs
+//@   call .merge on aggBuilder
+//@     requires [accumulator_reset] rs
+//@   call .marshal on aggBuilder
+//@     requires [accumulator_reset] rs
+//@   loop 1
+//@     invariant rs
+//@ func (*StreamIterators).mergeFloatPreAgg
+//@   ghost rs bool = false
+//@   call .reset on aggBuilder
+//@     set rs = true
+//@   call .unmarshal on aggBuilder
+//@     requires [accumulator_reset] rs
+//@   call .merge on aggBuilder
+//@     requires [accumulator_reset] rs
+//@   call .marshal on aggBuilder
+//@     requires [accumulator_reset] rs
+//@   loop 1
+//@     invariant rs
+//@ func (*StreamIterators).mergeStringPreAgg
+//@   ghost rs bool = false
+//@   call .reset on aggBuilder
+//@     set rs = true
+//@   call .unmarshal on aggBuilder
+//@     requires [accumulator_reset] rs
+//@   call .addCount on aggBuilder
+//@     requires [accumulator_reset] rs
+//@   call .marshal on aggBuilder
+//@     requires [accumulator_reset] rs
+//@   loop 1
+//@     invariant rs
+//@ func (*StreamIterators).mergeBooleanPreAgg
+//@   ghost rs bool = false
+//@   call .reset on aggBuilder
+//@     set rs = true
+//@   call .unmarshal on aggBuilder
+//@     requires [accumulator_reset] rs
+//@   call .addCount on aggBuilder
+//@     requires [accumulator_reset] rs
+//@   call .addMin on aggBuilder
+//@     requires [accumulator_reset] rs
+//@   call .addMax on aggBuilder
+//@     requires [accumulator_reset] rs
+//@   call .marshal on aggBuilder
+//@     requires [accumulator_reset] rs
+//@   loop 1
+//@     invariant rs
 
 // ================================================================ C03: crash-atomic file replacement
 //@ prop C03
